@@ -196,6 +196,7 @@ pub fn run(ctx: &Ctx) -> Report {
     run_part(ctx, &mut rep, &medium_part(ctx.tier));
     run_part(ctx, &mut rep, &super::sweep::sweep_part("moves-large-screen-parameter-sweep", &SYS_SWEEP, &alpha_sweep, ctx.tier));
     run_part(ctx, &mut rep, &super::sweep::mode_part(&SYS_MODES, ctx.tier));
+    super::sweep::mode_number_sweep(ctx, &mut rep, &SYS_MODES);
     rep.rule = "lock-step BFS of (real Vt, reference terminal) over every movement command x parameter class x spelling, DECOM, valid and invalid DECSTBM pairs, text to reach wrap-pending, resizes; after every transition all cells of lines(), the cursor and the specified wrap marks are compared; a probe layer at every new state exposes margins, origin mode, tab stops and saved contexts".into();
     rep.assumptions = vec!["readings R1-R7 of DESIGN.md §3.2 (wrap-pending column compared as min(col, cols-1) after vertical moves)".into()];
     rep
@@ -205,6 +206,9 @@ pub fn replay(ctx: &Ctx, v: &Value) -> bool {
     let tier = if v["tier"] == "thorough" { Tier::Thorough } else { Tier::Quick };
     if v["part"] == "moves-lockstep-medium-screen" {
         return replay_part(ctx, &medium_part(tier), v);
+    }
+    if v["part"] == "every-mode-number" {
+        return super::sweep::mode_number_replay(ctx, &SYS_MODES);
     }
     if v["part"] == "mode-list-shapes" {
         return replay_part(ctx, &super::sweep::mode_part(&SYS_MODES, tier), v);
